@@ -232,7 +232,9 @@ class Runnable(UsesState, HasLabel, HasRun, ABC):
         if executor is None:
             try:
                 run_output = self.on_run(*on_run_args, **on_run_kwargs)
-            except (Exception, KeyboardInterrupt) as e:
+            except BaseException as e:
+                # Whatever ends the run -- an error, an interrupt, an exit request -- the
+                # status must not be left at "running"
                 self._run_exception(**run_exception_kwargs)
                 self._run_finally(**run_finally_kwargs)
                 if raise_run_exceptions:
@@ -307,7 +309,7 @@ class Runnable(UsesState, HasLabel, HasRun, ABC):
             result = self.process_run_result(run_output)
             self._run_succeeded(**kwargs)
             return result
-        except (Exception, KeyboardInterrupt) as e:
+        except BaseException as e:
             # The same exceptions as `_run` handles for a local run -- an executor-run
             # failure must not look like a completed run
             self._run_exception(**run_exception_kwargs)
